@@ -195,6 +195,50 @@ type Fact struct {
 // dominator ends in an `if` and which is entered only from that `if`.
 // It covers if/else, early returns, && and || chains and type switches.
 func FactsAt(b *ssa.BasicBlock) []Fact {
+	return expandPhiFacts(factsAt(b), 0, true)
+}
+
+// expandPhiFacts: go/ssa evaluates `a && b` used as a value (e.g. the case of a
+// tagless switch) into a φ of (false, b): when such a φ is known true, b is true
+// and everything known where b was evaluated holds as well (dually for ||).
+func expandPhiFacts(fs []Fact, depth int, withDominators bool) []Fact {
+	if depth > 4 {
+		return fs
+	}
+	out := fs
+	for _, f := range fs {
+		phi, ok := f.Cond.(*ssa.Phi)
+		if !ok {
+			continue
+		}
+		var live ssa.Value
+		var livePred *ssa.BasicBlock
+		okShape := true
+		for i, e := range phi.Edges {
+			if v, isC := ConstBool(e); isC && v != f.Truth {
+				continue // this edge contributes the opposite constant: not the one taken
+			}
+			if live != nil {
+				okShape = false
+			}
+			live, livePred = e, phi.Block().Preds[i]
+		}
+		if !okShape || live == nil {
+			continue
+		}
+		var extra []Fact
+		if _, isC := ConstBool(live); !isC {
+			extra = append(extra, Fact{live, f.Truth, livePred})
+		}
+		if withDominators {
+			extra = append(extra, factsAt(livePred)...)
+		}
+		out = append(out, expandPhiFacts(extra, depth+1, withDominators)...)
+	}
+	return out
+}
+
+func factsAt(b *ssa.BasicBlock) []Fact {
 	var out []Fact
 	for d := b; d != nil; d = d.Idom() {
 		if len(d.Preds) != 1 {
